@@ -235,7 +235,7 @@ class C16(Property):
       nset = W.span("nset", 0, 6)
       return {"part": "ctrl", "mode": W.weighted("mode", [
         (2, "direct"), (2, "add"), (1, "rmul"), (1, "copy"), (1, "map"),
-        (1, "limit-skip"), (1, "mixer-event")]),
+        (1, "limit-skip"), (1, "mixer-event"), (1, "mixer-event-twice")]),
         "riter": W.chance("riter", 1, 3),
         "nset": nset,
         "reads": [W.weighted("rk", [(3, 1), (2, 2), (1, 5), (1, 0)])
@@ -718,6 +718,13 @@ class C16(Property):
       out = self.ls.Streamix(zero=0)
       out.add(0, cs)
       f = lambda d, v: 0 + v
+    elif mode == "mixer-event-twice":
+      # the very same ControlStream object added twice (unison / echo): from
+      # the third sample on both events play the current value
+      out = self.ls.Streamix(zero=0)
+      out.add(0, cs)
+      out.add(2, cs)
+      f = lambda d, v: 0 + v if d <= 2 else 0 + v + v
     else:
       out = cs.copy()
       f = lambda d, v: v
